@@ -14,12 +14,13 @@ from .c02 import after_list_removal  # noqa: F401
 from .c07 import blocks_of, compare_output
 
 ID = "C16"
+VARY_WRITE_CAP = True  # W4: partial raw data writes (sim.disk)
 VARY_KNOBS = True  # module-level tuning constants of the library are lowered in some runs (sim.core.lower_tuning_constants)
 VARY_ARGFORM = True  # integer call arguments also arrive as numpy integer scalars
 GUARD_KERNELS = True
 SHRINK_LISTS = ("ops", "faults", "ranges", ("files", "nsamps"))
 SHRINK_MIN = {"nchans": 2, "nbits": 1, "gulp": 1}
-SHRINK_SIMPLE = {"knobs": None, "argform": "int", "refused_first": None}
+SHRINK_SIMPLE = {"write_cap": None, "knobs": None, "argform": "int", "refused_first": None}
 FCH1, FOFF = 1500.0, -0.5
 BANDS = [(1500.0, -0.5), (1581.804688, -0.390625), (1400.1, 0.3)]  # float32-exact and not
 
